@@ -923,15 +923,14 @@ func c21Parts(c *vx.Ctx) []c21Part {
 			[]string{"new", "newb", "max:1", "max:2", "max:3", "omax:3", "onew"}, vx.Pick(c, 4, 5), nil},
 		// peer-created streams against the conn's advertised limit
 		{"remote-kinds", cfgs([]int64{0, 1, 2}, []int64{1}), kinds, vx.Pick(c, 2, 3), nil},
-	}
-	parts = append(parts, extra...)
-	parts = append(parts, []c21Part{
+		extra[1], // remote-batched-closed-1 (the order of the parts only matters when the deadline cuts the run: small parts first)
 		// the two stream types do not share a limit
 		{"cross-type", cfgs([]int64{1}, []int64{1}),
 			[]string{"pf#0", "ops#0", "ops#1", "acc", "close:0", "close:1", "ps@0", "ps@-1", "omax:3", "onew", "new"}, vx.Pick(c, 4, 5), nil},
 		// finishing local streams must not extend the peer's limit
 		{"mixed", cfgs([]int64{1}, []int64{1}),
 			[]string{"new", "lclose:0", "lpf:0", "ack", "pf#0", "acc", "close:0", "ps@0", "ps@-1", "max:1"}, vx.Pick(c, 5, 6), nil},
+		extra[2], extra[3], extra[0], // remote-batched-closed-2, -3, remote-batched
 		// deeper histories of peer-created streams
 		{"remote-0-2-3", cfgs([]int64{0, 2, 3}, []int64{1}), remote, vx.Pick(c, 4, 6), nil},
 		{"remote-1", cfgs([]int64{1}, []int64{1}), remote, vx.Pick(c, 6, 7), nil},
@@ -950,7 +949,7 @@ func c21Parts(c *vx.Ctx) []c21Part {
 		{"local-late-2", cfgs([]int64{1}, []int64{2}),
 			[]string{"new", "lclose:0", "lclose:1", "ack", "lf#1", "lm#0", "lm#1", "max:3"},
 			vx.Pick(c, 4, 6), c21SeedOpens},
-	}...)
+	}
 	return parts
 }
 
